@@ -264,3 +264,36 @@ def with_e2(defs, fates=("s", "f", "C", "P", "p", "t")):
                 d["fates"][t] = list(fates)
         out.append(d)
     return out
+
+
+def curated_ctx():
+    A = ["s", "f"]
+    out = []
+    out.append(D.wf("s1_inherit", {
+        "t1": T(next=[dict(pub=[["a", "c:1"]], do=["t2", "t3"])]),
+        "t2": T(next=[dict(pub=[["a", "c:2"]], do=["t4"])]),
+        "t3": T(next=[dict(do=["t4"])]),
+        "t4": T(join=-1)}, vars=[["a", 0]], output=[["oa", "ctx:a"]]))
+    out.append(D.wf("independent_join", {
+        "t1": T(next=[dict(do=["t2", "t3"])]),
+        "t2": T(next=[dict(pub=[["a", "res"]], do=["t4"])]),
+        "t3": T(next=[dict(pub=[["a", "res"]], do=["t4"])]),
+        "t4": T(join=-1, next=[dict(pub=[["b", "ctx:a"]], do=["t5"])]), "t5": T()},
+        vars=[["a", 0]], output=[["ob", "ctx:b"]]))
+    out.append(D.wf("no_leak", {
+        "t1": T(next=[dict(when="succeeded", pub=[["x", "res"]], do=["t2"]), dict(when="succeeded", pub=[["y", "res"]], do=["t3"])]),
+        "t2": T(next=[dict(pub=[["z", "ctx:x"]], do=["t4"])]),
+        "t3": T(next=[dict(pub=[["z", "ctx:y"]], do=["t4"])]),
+        "t4": T()}, output=[], fates={"t1": ["s"], "t2": A, "t3": A, "t4": ["s"]}))
+    out.append(D.wf("split_ctx", {
+        "t1": T(next=[dict(do=["t2", "t3"])]),
+        "t2": T(next=[dict(pub=[["a", "res"]], do=["t4"])]),
+        "t3": T(next=[dict(pub=[["a", "res"]], do=["t4"])]),
+        "t4": T(next=[dict(pub=[["b", "inc:a"]], do=["t5"])]), "t5": T()},
+        vars=[["a", 0], ["b", 0]], output=[["oa", "ctx:a"], ["ob", "ctx:b"]]))
+    out.append(D.wf("rolling_pub", {
+        "t1": T(next=[dict(pub=[["x", "c:1"], ["y", "inc:x"], ["x", "inc:y"]], do=["t2"])]),
+        "t2": T(next=[dict(when="ge:x:3", pub=[["z", "ctx:x"]], do=["t3"]), dict(when="lt:x:3", do=["noop"])]),
+        "t3": T()}, vars=[["x", 0]], output=[["ox", "ctx:x"], ["oy", "ctx:y"]]))
+    out.append(loop_def("loop3", 3))
+    return out
